@@ -73,6 +73,9 @@ def replay_chunk(items, root, seed):
             s.valid = np.array([1, 1, 1])
             m0 = rng.randrange(NM)
             s.flux = np.array([val(m0, 1, i) * rng.uniform(0.6, 1.5) * 0.2 for i in w.filt_w])
+            from astropy import units as u_
+            kk = np.asarray(w.law.get_av(np.array([WAV[i] for i in w.filt_w]) * u_.micron))
+            s.flux = s.flux * 10.0 ** (rng.choice([0.0, 1.0, 2.5]) * kk)          # reddened: the fitted A_V is non-zero
             s.error = 0.1 * s.flux
             desc = {'behaviour': b, 'wavelengths_um': [WAV[i] for i in w.filt_w]}
             try:
